@@ -1065,7 +1065,7 @@ struct Digit {
             if (diff <= precision) {
                 if (fraction_length > precision) {
                     index += SizeT(fraction_length - (precision + SizeT{1}));
-                    roundStringNumber(stream, started_at, index, power_increased, (round_up | (diff != 0)));
+                    roundStringNumber(stream, started_at, index, power_increased, round_up);
                     storage = stream.Storage();
 
                     Char_T       *number = (storage + index);
